@@ -480,7 +480,7 @@ def run_cases(run, binpath, cases, tag, judge):
     answers = run_impl(binpath, cases)
     impl = [impl_str(c, a) for c, a in zip(cases, answers)]
     try:
-        model = coqtools.coq_eval(tag, IMPORTS, [g_case(c) for c in cases], shard=max(20, min(250, len(cases) // 16 + 1)))
+        model = coqtools.coq_eval(tag, IMPORTS, [g_case(c) for c in cases], shard=min(600, max(100, len(cases) // 6 + 1)))
     except RuntimeError as e:
         run.tie_broken("model evaluation (coqc cases)", str(e))
         model = [None] * len(cases)
